@@ -8,7 +8,16 @@ def strategy(tier):
     @st.composite
     def cases(draw):
         spec = draw(gen_fgg.specs(recursive=draw(st.booleans()), weights=(0.0, 0.25, 0.5), max_nts=4, max_dom=2, max_edges=3, max_nodes=4))
-        return {'kind': 'hrg', 'spec': spec, 'order': draw(st.integers(0, 5))}
+        # edit history: some rules had a nonterminal edge (to an existing nonterminal, or -- removed before the rule was added --
+        # to a label the grammar never sees) that was removed again
+        ghosts = {}
+        if spec['rules'] and draw(st.integers(0, 2)) == 0:
+            for ri in range(len(spec['rules'])):
+                if draw(st.integers(0, 2)) == 0:
+                    when = draw(st.sampled_from(['before', 'after']))
+                    lab = draw(st.sampled_from(sorted(spec['nonterminals']) + (['ZZ'] if when == 'before' else [])))
+                    ghosts[str(ri)] = {'label': lab, 'when': when}
+        return {'kind': 'hrg', 'spec': spec, 'order': draw(st.integers(0, 5)), 'ghosts': ghosts}
     return cases()
 
 
@@ -17,7 +26,7 @@ def check(case, ctx):
     from fggs.utils import nonterminal_graph, scc
     spec = case['spec']
     try:
-        fgg, info = gen_fgg.build(spec, 'real', torch.float64)
+        fgg, info = gen_fgg.build(spec, 'real', torch.float64, ghosts=case.get('ghosts'))
     except Exception as e:
         ctx.violation('build-failed', f'{type(e).__name__}: {e}'); return
     g = ctx.call('nonterminal_graph', nonterminal_graph, fgg)
@@ -46,5 +55,6 @@ def check(case, ctx):
         zs = ctx.call('sum_products', fggs.sum_products, fgg, method='fixed-point', kmax=30, tol=1e-3, semiring=fggs.RealSemiring(dtype=torch.float64))
     ctx.require({el.name for el in zs if el.is_nonterminal} == want_keys, 'sum_products-keys',
                 f'{sorted(el.name for el in zs if el.is_nonterminal)} != {sorted(want_keys)}')
+    ctx.label('hrg-removed-edge' if info.get('ghosts') else None)
     ctx.label('hrg', 'hrg-recursive' if gen_fgg.is_recursive(spec) else None, 'hrg-ruleless-nt' if any(not gen_fgg.rules_of(spec, x) for x in want_keys) else None)
     ctx.nontrivial = len(want_keys) >= 2 and len(want_edges) >= 1
